@@ -218,7 +218,7 @@ func genCase(t *rapid.T) Case {
 		c.RootPath = rapid.SampledFrom([]string{".", "/", "r", "/a/b", "a/b", "/tmp/x y"}).Draw(t, "rootpath")
 	case "disk":
 		c.Spelling = rapid.SampledFrom(append([]string{"canonical", "canonical", "slash"}, spellings...)).Draw(t, "spelling")
-		if cliBin() != "" && rapid.IntRange(0, hx.Pick(11, 3)).Draw(t, "cli?") == 0 {
+		if cliBin() != "" && rapid.IntRange(0, hx.Pick(23, 5)).Draw(t, "cli?") == 0 {
 			c.CLI = true
 			c.Prior = rapid.SampledFrom(append([]string{"longer", "bigger"}, priors...)).Draw(t, "prior")
 			c.PriorIdx = rapid.SampledFrom(append([]string{"longer"}, priors...)).Draw(t, "prioridx")
